@@ -334,9 +334,10 @@ pub fn spec(id: &str) -> Option<CheckSpec> {
             g.w.batch = 6;
             g.w.snap_open = 5;
             g.w.snap_release = 4;
-            g.w.ingest = 2;
+            g.w.ingest = 5;
+            g.w.drop_range = 1;
             g.w.reopen = 3;
-            g.w.major = 5;
+            g.w.major = 6;
             g.w.scan = 6;
             g.weak_keys_max = 2;
             g.w.remove_weak = 1;
